@@ -424,6 +424,7 @@ pub fn gen_font(rng: &mut Rng, quick: bool, want: Option<CmapScenario>) -> Optio
             _ => Glyph::Empty,
         });
     }
+    let mut instr_flag_elsewhere = false;
     for i in 0..n {
         if kinds[i] != K::Comp {
             continue;
@@ -468,6 +469,18 @@ pub fn gen_font(rng: &mut Rng, quick: bool, want: Option<CmapScenario>) -> Optio
         }
         npoints[i] = pts;
         let il = if rng.chance(1, 3) { 1 + rng.below(12) } else { 0 };
+        let mut components = components;
+        let nk = components.len();
+        if il > 0 && nk >= 2 && rng.chance(1, 2) {
+            instr_flag_elsewhere = true;
+            // WE_HAVE_INSTRUCTIONS on a component other than (or in addition to) the last one: legal,
+            // and a subsetter that re-serialises composites must keep the instructions either way
+            let k = rng.below(nk - 1);
+            components[k].extra_flags |= 0x100;
+            if rng.chance(1, 3) {
+                components[nk - 1].extra_flags |= 0x100;
+            }
+        }
         glyphs[i] = Glyph::Composite(Composite { components, instructions: rng.bytes(il) });
     }
     let with_bbox: Vec<(Glyph, BBox)> = glyphs
@@ -747,7 +760,7 @@ pub fn gen_font(rng: &mut Rng, quick: bool, want: Option<CmapScenario>) -> Optio
             return None;
         }
     }
-    src.name = format!("generated[{} glyphs, nhm {}, {}{}]", n, nhm, desc, if dense { ", dense" } else { "" });
+    src.name = format!("generated[{} glyphs, nhm {}, {}{}{}]", n, nhm, desc, if dense { ", dense" } else { "" }, if instr_flag_elsewhere { ", instr-flag-on-non-final-component" } else { "" });
     src.big5_holes = big5_holes;
     Some((src, GenInfo { scenario, desc }))
 }
@@ -755,7 +768,7 @@ pub fn gen_font(rng: &mut Rng, quick: bool, want: Option<CmapScenario>) -> Optio
 /// Glyph equality as C07 demands it: contours, points, on-curve flags, instructions; composites
 /// component by component (ids through `map_new_to_old` applied to `a`), arguments, transform,
 /// and the flags that change rendering or metrics. Encoding choices (words vs bytes, OVERLAP
-/// bits) are not content.
+/// bits, which component record carries WE_HAVE_INSTRUCTIONS) are not content.
 pub fn same_glyph(a: &Glyph, b: &Glyph, map_new_to_old: Option<&dyn Fn(u16) -> Option<u16>>) -> bool {
     let norm = |g: &Glyph| -> Glyph {
         match g {
@@ -779,7 +792,7 @@ pub fn same_glyph(a: &Glyph, b: &Glyph, map_new_to_old: Option<&dyn Fn(u16) -> O
                         Some(m) => m(p.gid),
                         None => Some(p.gid),
                     };
-                    pg == Some(q.gid) && p.args == q.args && p.scale == q.scale && (p.extra_flags & !0x400) == (q.extra_flags & !0x400)
+                    pg == Some(q.gid) && p.args == q.args && p.scale == q.scale && (p.extra_flags & !0x500) == (q.extra_flags & !0x500)
                 })
         }
         _ => false,
@@ -939,6 +952,27 @@ impl Workload {
         v
     }
 
+    /// The CFF seed `i` with its CFF table re-laid out behind a header of 5..=12 bytes (hdrSize > 4
+    /// is legal, TN #5176 section 6); cached per (seed, header size).
+    fn load_long_header(&mut self, i: usize, extra: usize) -> Option<Rc<Src>> {
+        let key = i + (extra << 24);
+        if let Some(x) = self.cache.get(&key) {
+            return x.clone();
+        }
+        let base = self.load(i)?;
+        let v = (|| {
+            let cff = base.font.gets("CFF ")?;
+            let filler: Vec<u8> = (0..extra).map(|k| 0xA5u8.wrapping_add(k as u8 * 17)).collect();
+            let new = crate::sfnt::cff_hdr_c07::extend_header(cff, &filler)?;
+            let mut f = base.font.clone();
+            f.sets("CFF ", new);
+            let bytes = f.build();
+            Src::from_bytes(&format!("{}, CFF hdrSize {}", base.name, 4 + extra), &bytes, false).map(Rc::new)
+        })();
+        self.cache.insert(key, v.clone());
+        v
+    }
+
     /// `cats`: weights for (generated, real TrueType, CFF, CFF2, variable, aots)
     pub fn pick_src(&mut self, cx: &mut Ctx, rng: &mut Rng, cats: [u32; 6], want: Option<CmapScenario>) -> Option<(Rc<Src>, Option<GenInfo>)> {
         let total: u32 = cats.iter().sum();
@@ -954,6 +988,9 @@ impl Workload {
         if cat == 0 {
             return match gen_font(rng, cx.quick(), want) {
                 Some((s, info)) => {
+                    if s.name.contains("instr-flag-on-non-final-component") {
+                        cx.class("source:composite-instructions-flag-on-non-final-component");
+                    }
                     if s.name.contains(", dense") {
                         let short = it::Head::read(s.font.gets("head").unwrap_or(&[])).map_or(false, |h| h.index_to_loc_format == 0);
                         cx.class(if short { "source:dense-font-short-loca" } else { "source:dense-font-long-loca" });
@@ -977,6 +1014,14 @@ impl Workload {
             return None;
         }
         let i = list[rng.below(list.len())];
+        if cat == 2 && rng.chance(1, 3) {
+            let extra = *rng.pick(&[1usize, 1, 2, 4, 8]);
+            if let Some(s) = self.load_long_header(i, extra) {
+                cx.class("source:cff-header-longer-than-4-bytes");
+                return Some((s, None));
+            }
+            cx.class("source:cff-header-extension-not-possible");
+        }
         match self.load(i) {
             Some(s) => Some((s, None)),
             None => {
